@@ -44,12 +44,14 @@ func c09ZS(t time.Time) string {
 }
 
 // Z-time of (year 2000 + ms milliseconds)
-func c09At(ms int64) time.Time { return time.Unix(946684800, 0).UTC().Add(time.Duration(ms) * time.Millisecond) }
+func c09At(ms int64) time.Time {
+	return time.Unix(946684800, 0).UTC().Add(time.Duration(ms) * time.Millisecond)
+}
 
 type c09Other struct{}
 
 func (c09Other) Marshal() ([]byte, error) { return []byte{0, 0}, nil }
-func (c09Other) Unmarshal([]byte) error  { return nil }
+func (c09Other) Unmarshal([]byte) error   { return nil }
 
 // ---- parsed form <-> rtcp structures
 
